@@ -112,6 +112,8 @@ class PoolProp(Prop):
         for b in tiny:
             for k in range(40 if tier == "quick" else 700):
                 yield dict(cfg=b["cfg"], hist=b["hist"], seed=0, policy="np", pb1=k)
+            for k in range(0 if tier == "quick" else 1200):
+                yield dict(cfg=b["cfg"], hist=b["hist"], seed=0, policy="np", pb2=k)
 
     # ------------------------------------------------------------------ model side (trace acceptance)
     def to_model2(self, case, o):
